@@ -15,7 +15,7 @@ P = "FimVerif.C09."
 THEOREMS = [P + t for t in (
     "atomic_addGNode", "atomic_nodeNew", "atomic_addNode", "atomic_setProps", "atomic_unsetProp", "atomic_rename",
     "atomic_ifaceNew_orphan", "atomic_ifaceNew", "atomic_addInterface", "atomic_linkNew", "atomic_addLink",
-    "atomic_connectInterface", "atomic_connectInterface_bogus", "atomic_addNetworkService_le1", "atomic_nodeAddService_le1",
+    "atomic_connectInterface", "atomic_connectInterface_bogus", "atomic_addNetworkService", "atomic_nodeAddService",
     "atomic_op", "addComponent_counterexample")]
 TRUSTED_BASE = [
     "Model/Topo.lean mirrors by hand the control flow of fim/user/{topology,node,component,network_service,interface,link}.py and the "
